@@ -643,3 +643,47 @@ def check_block_walk(rule, g, gctx, gat, cfgname, name, N):
         rule.bad(site, g.loc(L), "; ".join(sorted(set(problems))[:2]), cfgname)
     else:
         rule.ok(site, g.loc(L), "merge join: on every feasible path the iterator with the smaller block key advances alone and at least one advances on equal keys (%d paths)" % nfeasible, cfgname)
+
+
+def check_status_guards(rule, db, cfgname, owners):
+    """prepare()/compute() of a ComputableObject: `if (Status >= X) return;` at the top and `Status = Y;` at the end must
+    name the same level, otherwise a second call either repeats the function's effects (accumulating results twice)
+    or the function never runs."""
+    ST = ("field", "Pomerol::ComputableObject::Status", THIS)
+    for f in sorted([x for x in db.fns.values() if x.rec in owners and x.body is not None and x.body >= 0 and
+                     strip_targs(x.name).split("::")[-1] in ("prepare", "compute")], key=lambda y: (y.file, y.line, len(y.params))):
+        ctx = Ctx(f, db)
+        guards, sets = [], []
+        body = f.nodes[f.body]
+        for s_ in body.get("body", []) if body["k"] == "block" else []:
+            n = f.nodes[s_]
+            if n["k"] == "if" and n.get("else") is None and any(m["k"] == "return" for _, m in f.walk(n["then"])) and not any(m["k"] in ("call",) and m.get("ck") == "method" for _, m in f.walk(n["then"])):
+                for fct in ctx.cmp_fact(n["c"], True):
+                    if fct[0] in ("<", "<=", "==") and ST in fct[1:] and any(x[0] == "enum" for x in fct[1:]):
+                        en = [x for x in fct[1:] if x[0] == "enum"][0]
+                        # Status >= X  is normalised to  X <= Status
+                        if fct[0] == "<=" and fct[2] == ST:
+                            guards.append((s_, en, ">="))
+                        elif fct[0] == "<" and fct[2] == ST:
+                            guards.append((s_, en, ">"))
+                        else:
+                            guards.append((s_, en, "other"))
+        for j, n in f.walk(f.body):
+            if n["k"] == "bin" and n["op"] == "=" and ctx.key(n["l"], inline=False) == ST and not enclosing_loops(f, j):
+                rk = ctx.key(n["r"])
+                if rk[0] == "enum":
+                    sets.append((j, rk))
+        if not guards or not sets:
+            continue
+        site = "%s/%d:idempotent" % (f.qn, len(f.params))
+        g_, s_last = guards[0], sets[-1]
+        if g_[2] == "other":
+            rule.unknown(site, f.loc(g_[0]), "the early-return test of Status is not of the form Status >= level", cfgname)
+        elif g_[2] == ">=" and g_[1] == s_last[1]:
+            rule.ok(site, f.loc(g_[0]), "returns at once when Status >= %s, the level it sets at the end" % g_[1][1].split("::")[-1], cfgname)
+        elif g_[1][2] > s_last[1][2] or (g_[2] == ">" and g_[1][2] >= s_last[1][2]):
+            rule.bad(site, f.loc(g_[0]), "the early return needs Status %s %s but the function only raises Status to %s: the guard never fires after the function ran, so every further call repeats its effects "
+                     "(results accumulated with += are added again)" % (g_[2], g_[1][1].split("::")[-1], s_last[1][1].split("::")[-1]), cfgname)
+        else:
+            rule.bad(site, f.loc(g_[0]), "the function returns early already at Status %s %s, below the level %s it is meant to establish: after the previous stage it never does its work" % (
+                g_[2], g_[1][1].split("::")[-1], s_last[1][1].split("::")[-1]), cfgname)
